@@ -22,7 +22,7 @@ for b in blocks:
     suite = re.search(r'^suite with patch: (.*)$', body, re.M)
     confirmed = bool(without and withp and suite and without.group(1).startswith('ok') and 'FAIL' in withp.group(1)
                      and (suite.group(1).strip() == 'all ok' or 'TestSubscribe' in suite.group(1)))
-    checks = re.findall(r'^(C\d+) rc=(\d+) violations=(\d+)\s*(.*)$', body, re.M)
+    checks = re.findall(r'^(C\d+) rc=(\d+) violations=(\d+)[ \t]*(.*)$', body, re.M)
     detected = [c for c, rc, v, _ in checks if rc == '1']
     detected += extra.get(f'{pid}-{k}', [])  # keyed by the delivered name
     src = f'/tmp/mut/{pid}/MUTANT_{k}'
